@@ -238,6 +238,19 @@ def spec_digest(ctx, m, method, M):
         ctx.bad('C17.O2', method + ':value', '%s returns no integer value' % method, 'src/checksum.rs (%s)' % method)
 
 
+def poly_subst(P, sym, Q):
+    """P with every occurrence of the symbol replaced by the polynomial Q"""
+    out = Poly.const(0)
+    for mono, coef in P.t.items():
+        term = Poly.const(coef)
+        for s_, pw in mono:
+            base = Q if s_ == sym else Poly.sym(s_)
+            for _ in range(pw):
+                term = term * base
+        out = out + term
+    return out
+
+
 def spec_len(ctx, m, method):
     if m is None:
         return      # the method was outside the model: already reported as undecided
@@ -253,6 +266,30 @@ def lazy(ctx, F, tag, M, K):
     obl_report(ctx, 'C17.O1', T + '::new' + tag, m)
     spec_new(ctx, m, T + '::new' + tag, M, eager_inv=True)
     st = {'a': ('p', Poly.sym('A'), 'u64'), 'b': ('p', Poly.sym('B'), 'u64'), 'count': ('p', Poly.sym('n'), 'usize'), 'rolls': ('p', Poly.sym('k'), 'u32')}
+    # derived (cached) fields: anything else the constructor stores that is a function of the window length alone, e.g.
+    # `bias = MOD * count`.  The methods may rely on it, so every method must leave it equal to the same function of the NEW length
+    derived = {}
+    ctor_states = list(ret_obj(m)) if m is not None else []
+    if not ctor_states:
+        # `new` is outside the model (e.g. written as a fold): a private constructor helper `fn(a, b, count) -> Self` says the same
+        for pth, hb in list(F.bodies.items()) + list(getattr(F, 'inlined', {}).items()):
+            if not pth.startswith(FC + '::') or '::{' in pth or hb.argc != 3 or not hb.local_ty(0).endswith(FC.split('::')[-1]):
+                continue
+            if [hb.local_ty(i) for i in (1, 2, 3)] != ['u64', 'u64', 'usize']:
+                continue
+            hm = Machine(F, hb, M, Box({'A': (0, M - 1), 'B': (0, M - 1), 'n': (0, NMAX)}), NMAX)
+            hm.check = False
+            try:
+                hm.run({1: ('p', Poly.sym('A'), 'u64'), 2: ('p', Poly.sym('B'), 'u64'), 3: ('p', Poly.sym('n'), 'usize')})
+                ctor_states += list(ret_obj(hm))
+            except Unsupported:
+                pass
+    for fields, bx in ctor_states:
+        for f, v in fields.items():
+            if f not in st and v[0] == 'p' and set(v[1].syms()) <= {'n'}:
+                derived[f] = (v[1], v[2])
+    for f, (P, ty) in derived.items():
+        st[f] = ('p', P, ty)
     HUGE = 1 << 200
 
     def deltas(method, env_extra, box_extra, n_range):
@@ -318,6 +355,12 @@ def lazy(ctx, F, tag, M, K):
         # O3: rolls' in [0, K-1]; on the path that does not normalise the bound for k+1 holds by construction of SA/SB;
         # on the normalising path a, b < M and rolls == 0
         for fields, bx in ret_obj(m):
+            for f, (P, ty) in derived.items():
+                want = poly_subst(P, 'n', fields['count'][1])
+                got = fields.get(f, (None, None))[1]
+                ctx.check(got is not None and got == want, 'C17.O4', '%s::%s%s:%s-follows-count' % (T, meth, tag, f), '%s == %s of the new window length' % (f, P),
+                          '%s::%s changes the window length to %s but leaves the cached field `%s` at %s (the constructor sets it to %s of the length): the next roll subtracts with a stale value and the digest leaves the definition'
+                          % (T, meth, fields['count'][1], f, got, P), 'src/checksum.rs')
             rl = fields['rolls'][1]
             lo, hi = bx.bounds(rl)
             ctx.check(lo >= 0 and hi <= K - 1, 'C17.O3', '%s::%s%s:rolls<K' % (T, meth, tag), "rolls' in [%d, %d]" % (lo, hi),
